@@ -14,7 +14,9 @@ def plen_sel(size, kind, line):
         return size + 1
     if kind == 2:
         return 0
-    return len(line)
+    if kind == 3:
+        return len(line)
+    return (kind - 4) + (line[0] if line else 0)
 
 
 def mk_srv(size, kind, stream, rsc, wsc, dests, nreq, src, fam=6, cancel=None):
@@ -140,6 +142,17 @@ class C07(Prop):
             wsc = [(0, rng.choice([1, 2, U64, U64])) for _ in range(rng.randrange(0, 6))]
             dests = [rng.choice([0, 1, 1, 2, 3, 8, 64]) for _ in range(rng.randrange(0, 6))]
             cases.append(mk_srv(size, kind, st, rsc, wsc, dests, nreq + 1, "random"))
+        # search directed by the source: payload lengths at the novel literals (kind = 4 + base: length = base + header byte)
+        from . import fam_api
+        for v in fam_api.NOVEL:
+            if v + 300 >= 2 ** 64:
+                continue
+            for hb in (5, 0, 200):
+                for n_avail in (3, 40, 600):
+                    st = [hb, 10] + [97 + (i % 26) for i in range(n_avail)]
+                    for dests in ([], [16], [1, 2, 3], [64, 64], [4096]):
+                        cases.append(mk_srv(8, 4 + v, st, [], [], dests, 2, "dictionary"))
+                        cases.append(mk_srv(32, 4 + v, st, [(0, 7, 0)] * 3, [], dests, 2, "dictionary"))
         return cases
 
     def check(self, case, trace, prof):
